@@ -130,6 +130,25 @@ def builtin_rng_independence(flags):
     return ('ok', [out.strip()[:200]]) if 'C10-RNG-OK' in out else ('broken', ['independence harness printed nothing: ' + (out + err)[-300:]])
 
 
+def nested_instances(flags, seed):
+    """harness/c10_nested_instances.cpp: an instance behaves the same whether or not another instance of its type is driven
+    from inside its callbacks. Returns (status, [messages])."""
+    src = os.path.join(V.HARNESS, 'c10_nested_instances.cpp')
+    if not os.path.exists(src):
+        return 'unavailable', ['harness/c10_nested_instances.cpp not installed']
+    exe, err, dt, cached = V.build_cxx(src, flags, 'c10n')
+    if exe is None:
+        return 'broken', ['nested-instances harness does not compile against the current header: ' + err[-500:]]
+    env = dict(os.environ); env['ASAN_OPTIONS'] = 'detect_leaks=0'
+    st, out, err = V.sh([exe, str(seed), '40'], timeout=300, env=env)
+    diffs = [l for l in out.splitlines() if l.startswith('C10-NEST-DIFF')]
+    if st != 0:
+        return 'crash', ['nested-instances harness died with status %d: %s' % (st, (err or out)[-600:])]
+    if diffs:
+        return 'diff', diffs
+    return ('ok', [out.strip()[:200]]) if 'C10-NEST-OK' in out else ('broken', ['nested-instances harness printed nothing: ' + (out + err)[-300:]])
+
+
 def witness_f4():
     """Build and run the ASan witness of F4. Returns (status, text): 'uaf' | 'behaviour' | 'ok' | 'unavailable'."""
     src = os.path.join(V.HARNESS, 'c10_witness_copy_rng.cpp')
@@ -275,6 +294,19 @@ def run(tier, seed):
             res['rejections'].append(dict(tag='crash', what=imsgs[0], replay=imsgs[0]))
         elif ist == 'broken':
             res['broken'].append(imsgs[0])
+        nst, nmsgs = nested_instances(V.SAN_FLAGS if tier != 'quick' else ['-O1'], seed)
+        if nst == 'diff':
+            for m in nmsgs[:3]:
+                res['rejections'].append(dict(
+                    tag='nested-instance-interference',
+                    what='an instance behaves differently when another instance of the same type is driven from inside its '
+                         'callbacks: ' + m[:500],
+                    replay='g++ -std=c++14 -O1 -I/repo/include harness/c10_nested_instances.cpp -o w && ./w %s 40\n' % seed + '\n'.join(nmsgs)))
+        elif nst == 'crash':
+            res['c11_rejections'].append(dict(tag='crash', what=nmsgs[0], replay=nmsgs[0]))
+            res['rejections'].append(dict(tag='crash', what=nmsgs[0], replay=nmsgs[0]))
+        elif nst == 'broken':
+            res['broken'].append(nmsgs[0])
         wst, wtext = witness_f4()
         if wst == 'uaf':
             res['rejections'].append(dict(tag='copy-dangling-generator', what=wtext,
@@ -293,7 +325,7 @@ def run(tier, seed):
         res['alloc'] = dict(inside_api=alloc_in, by_harness=alloc_out)
         res['coverage'] = dict(
             programs=len(plan), runs=len(jobs), transcripts_compared=n_cmp, copy_runs=n_copy, evaluations=n_cmp + n_copy_scn,
-            distinct_nontrivial=n_cmp + n_copy_scn, copy_scenarios=n_copy_scn, fills=FILLS, offsets=offsets, f4_witness=wst, builtin_rng_independence=ist,
+            distinct_nontrivial=n_cmp + n_copy_scn, copy_scenarios=n_copy_scn, fills=FILLS, offsets=offsets, f4_witness=wst, builtin_rng_independence=ist, nested_instances=nst, nested_instances_note=(nmsgs[0][:120] if nmsgs else ''),
             allocations_inside_api=alloc_in, allocations_by_harness=alloc_out, traces_validated_against_impl=n_cmp,
             shapes=[S.to_sexpr(s) for s in shapes],
             rule='evaluation = one whole-transcript comparison (same binary, different storage fill/offset/process) or one '
